@@ -319,6 +319,8 @@ def corpus(rng):
     C.append(Case(nbw=2, jobsize=T, kind=1, isize=3000000, prog="P1006:1,G1200000:4194304,T2,s1000:4194304,G1200000:4194304", tag="pool-switch-stable-hint"))
     C.append(Case(nbw=2, jobsize=T, kind=1, isize=4000000, prog="T2,G1200000:4194304,T0,G1200000:100000,T2,c1100000:0,R,T0,G1200000:4194304", tag="pool-switch"))
     C.append(Case(nbw=2, jobsize=T, kind=1, isize=4000000, prog="T3,c1100000:100,s600000:4096,Z,G600000:100000,W1,G1200000:4194304,T0,W3,G400000:4194304", tag="pool-switch-resize"))
+    # a context built around a shared pool of nbWorkers threads from the start runs the same protocol: lock-stepped
+    C.append(Case(nbw=2, jobsize=T, kind=1, isize=4000000, probe=1, prog="T2,c1100000:1000,X1,G600000:4194304,G900000:100000,c600000:0,R,G700000:4194304", tag="shared-pool-lockstep"))
     # the context is freed in the middle of a frame whose jobs run on a shared pool (fix f02e35a: ZSTDMT_freeCCtx waits for them)
     C.append(Case(nbw=2, jobsize=T, kind=1, level=3, isize=4000000, prog="T2,G600000:4194304,c1700000:0", tag="pool-shared-free-midframe"))
     out = []
@@ -438,6 +440,10 @@ def build_model_case(tr):
                 if not st_frame:
                     last_c = ["C", t[2], t[3], t[4], None]
                     ops.append(last_c)
+            elif t[1] == "pool0":
+                # the multithreaded context was built around a shared pool from the start: the same protocol when the pool has nbWorkers threads
+                if cfg and t[2] != cfg["nbw"] and unmodelled is None:
+                    unmodelled = "shared thread pool whose size differs from nbWorkers (outside the model)"
             elif t[1] == "pool":
                 unmodelled = "ZSTD_CCtx_refThreadPool: the multithreaded context is rebuilt around another pool (outside the model)"
             elif t[1] == "workers":
